@@ -136,6 +136,39 @@ def print_assumptions(prop_file):
     return res, out
 
 
+def coqchk(prop_file, allowed):
+    """thorough tier: re-check the compiled property file and everything it depends on with the
+    independent checker; returns (ok, axioms, text)"""
+    mod = "CaoProps." + os.path.basename(prop_file)[:-2]
+    with Lock("coq.lock"):
+        rc, out = run(["timeout", "3000", "coqchk", "-o", "-silent", "-Q", "theories", "Cao",
+                       "-Q", "Properties", "CaoProps", mod], cwd=COQ, timeout=3100)
+    if rc != 0 or "CONTEXT SUMMARY" not in out:
+        return False, [], out[-3000:]
+    summ = out[out.index("CONTEXT SUMMARY"):]
+    sect = {}
+    cur = None
+    for line in summ.split("\n"):
+        m = re.match(r"\* ([^:]+):\s*(.*)", line.strip())
+        if m:
+            cur = m.group(1); sect[cur] = []
+            if m.group(2) and m.group(2) != "<none>":
+                sect[cur].append(m.group(2))
+        elif cur and line.strip():
+            sect[cur].append(line.strip())
+    axioms = [re.split(r"\s", a)[0] for a in sect.get("Axioms", [])]
+    bad = []
+    for k, v in sect.items():
+        if k.startswith("Axioms") or k.startswith("Theory"):
+            continue
+        if v:
+            bad.append("%s: %s" % (k, v))
+    extra = [a for a in axioms if not any(a == x or a.endswith("." + x) for x in allowed)]
+    if extra:
+        bad.append("axioms outside the allowlist: %s" % extra)
+    return not bad, axioms, "; ".join(bad) if bad else summ
+
+
 def theorem_statements(prop_file):
     src = strip_comments(open(os.path.join(COQ, prop_file)).read())
     out = []
@@ -320,6 +353,15 @@ def main(argv):
         missing = [t for t in cfg["theorems"] if t not in assumptions]
         if missing:
             add_violation("assumptions", "property theorems missing from %s: %s" % (prop_file, missing), found=False)
+
+    coqchk_note = None
+    if ok_proofs and tier == "thorough" and not replay:
+        allowed_all = set(a for axs in cfg["theorems"].values() for a in axs) | set(cfg.get("coqchk_axioms", []))
+        okc, axc, txt = coqchk(prop_file, allowed_all)
+        coqchk_note = "coqchk -o: %s; axioms of the loaded context: %s" % ("accepted" if okc else "REJECTED", axc or "<none>")
+        notes.append(coqchk_note)
+        if not okc:
+            add_violation("coqchk", "the independent checker does not accept the compiled development: " + txt, found=False)
 
     # 3. implementation at /repo's working tree
     profiles = ["debug"] + (["release"] if tier == "thorough" and cfg.get("release", True) else [])
